@@ -306,12 +306,21 @@ def run(ctx):
                 time = (time * np.float32(2.0 ** -20)).astype(np.float32)
             elif tmode == "huge":                            # long runs: 2^24 ps and beyond (still exactly representable steps)
                 time = (time * np.float32(2.0 ** 22)).astype(np.float32)
-            cellmode = rng.choice(["none", "ortho", "ortho-varying", "tri", "tri-varying"])
+            cellmode = rng.choice(["none", "ortho", "ortho-varying", "tri", "tri-varying", "tri-mono", "tri-hex", "tri-rdod", "tri-mono-varying"])
             top = make_top(md, na)
             t = md.Trajectory(xyz.copy(), top, time=time.copy())
             if cellmode != "none":
                 L = np.array([[2.5 + (0.25 * f if "varying" in cellmode else 0), 3.0, 4.125 + (0.5 * f if "varying" in cellmode else 0)] for f in range(nf)], dtype=np.float32) * (40 if mag > 10 else 1)
-                A = np.full((nf, 3), 90.0, dtype=np.float32) if cellmode.startswith("ortho") else np.array([[80.0, 75.0 + (f if "varying" in cellmode else 0), 65.0] for f in range(nf)], dtype=np.float32)
+                if cellmode.startswith("ortho"):
+                    A = np.full((nf, 3), 90.0, dtype=np.float32)
+                elif "mono" in cellmode:                      # one or two angles exactly 90 degrees: monoclinic, hexagonal, rhombic dodecahedron;
+                    A = np.array([[90.0, 75.0 + (15.0 * (f % 3) if "varying" in cellmode else 0), 90.0] for f in range(nf)], dtype=np.float32)   # varying: 75, 90 (a rectangular frame), 105
+                elif "hex" in cellmode:
+                    A = np.array([[90.0, 90.0, 120.0]] * nf, dtype=np.float32)
+                elif "rdod" in cellmode:
+                    A = np.array([[60.0, 60.0, 90.0]] * nf, dtype=np.float32)
+                else:
+                    A = np.array([[80.0, 75.0 + (f if "varying" in cellmode else 0), 65.0] for f in range(nf)], dtype=np.float32)
                 t.unitcell_lengths = L; t.unitcell_angles = A
             for ext in rng.sample(FORMATS, 6):
                 base = MODEL.get(ext, ext)
